@@ -549,6 +549,11 @@ class P(Prop):
                             break
             if msg:
                 return "operation %d (%s) on a track of %s: %s" % (j, op, self.COORDS[cls].__name__, msg)
+        # the feature is observed both ways: what the call returned is what track['abs_curv'] / track['speed'] reads
+        for op, nm in (("a", "abs_curv"), ("s", "speed")):
+            last = [r for o, r in zip(case["ops"], out["rets"]) if o == op]
+            if last and (nm not in after or not close(after[nm], last[-1], 0.0, 0.0)):
+                return "%s returned %s but track['%s'] reads %s" % ({"a": "computeAbsCurv", "s": "estimate_speed"}[op], last[-1], nm, after.get(nm))
         return None
 
     def chk_abscurv_rng(self, s, legs):
